@@ -772,24 +772,45 @@ func checkAuthentication(validCredentials []Credentials, expectedRegion string, 
 			slog.DebugContext(r.Context(), "Streaming payload algorithm does not match request signature algorithm")
 			return nil, false
 		}
-		// aws-chunked is a transport encoding, not object metadata: strip it
-		// whether it is the only encoding or the first of several.
-		contentEncodingHeader = stripAwsChunkedContentEncoding(contentEncodingHeader)
-		if contentEncodingHeader != "" {
-			r.Header.Set("Content-Encoding", contentEncodingHeader)
-		} else {
-			r.Header.Del("Content-Encoding")
-		}
-		r.Header.Set("Content-Length", r.Header.Get("x-amz-decoded-content-length"))
-		r.Header.Del("x-amz-decoded-content-length")
-		trailingHeader := contentSHA256 == contentSHA256StreamingUnsignedPayloadTrailing || contentSHA256 == contentSHA256StreamingPayloadTrailing || contentSHA256 == contentSHA256StreamingECDSAPayloadTrailing
-		hasTrailingHeaderWithSignature := contentSHA256 == contentSHA256StreamingPayloadTrailing || contentSHA256 == contentSHA256StreamingECDSAPayloadTrailing
-		skipChunkValidation := contentSHA256 == contentSHA256StreamingUnsignedPayloadTrailing || contentSHA256 == contentSHA256StreamingUnsignedPayload
-		trailerChecksumName := strings.ToLower(strings.TrimSpace(r.Header.Get(trailerHeader)))
-		r.Body = newAwsChunkReadCloser(r.Context(), r.Body, parameters.timestamp, scope.value, parameters.signature, verifier, trailingHeader, hasTrailingHeaderWithSignature, skipChunkValidation, trailerChecksumName)
+		installAwsChunkedDecoder(r, parameters.timestamp, scope.value, parameters.signature, verifier, true)
 	}
 
 	return &accessKeyId, isSignatureValid
+}
+
+// installAwsChunkedDecoder replaces r.Body with a reader that strips the
+// aws-chunked framing and rewrites the headers describing the encoding, so the
+// handlers see the decoded payload. Checksum trailers are always verified.
+// Chunk and trailer signatures are verified only if verifySignatures is set;
+// that requires the seed signature and verifier of an authenticated request.
+func installAwsChunkedDecoder(r *http.Request, timestamp string, scope string, seedSignature string, verifier signatureVerifier, verifySignatures bool) {
+	contentSHA256 := r.Header.Get(contentSHA256Header)
+	// aws-chunked is a transport encoding, not object metadata: strip it
+	// whether it is the only encoding or the first of several.
+	contentEncodingHeader := stripAwsChunkedContentEncoding(r.Header.Get("Content-Encoding"))
+	if contentEncodingHeader != "" {
+		r.Header.Set("Content-Encoding", contentEncodingHeader)
+	} else {
+		r.Header.Del("Content-Encoding")
+	}
+	r.Header.Set("Content-Length", r.Header.Get("x-amz-decoded-content-length"))
+	r.Header.Del("x-amz-decoded-content-length")
+	trailingHeader := contentSHA256 == contentSHA256StreamingUnsignedPayloadTrailing || contentSHA256 == contentSHA256StreamingPayloadTrailing || contentSHA256 == contentSHA256StreamingECDSAPayloadTrailing
+	hasTrailingHeaderWithSignature := verifySignatures && (contentSHA256 == contentSHA256StreamingPayloadTrailing || contentSHA256 == contentSHA256StreamingECDSAPayloadTrailing)
+	skipChunkValidation := !verifySignatures || contentSHA256 == contentSHA256StreamingUnsignedPayloadTrailing || contentSHA256 == contentSHA256StreamingUnsignedPayload
+	trailerChecksumName := strings.ToLower(strings.TrimSpace(r.Header.Get(trailerHeader)))
+	r.Body = newAwsChunkReadCloser(r.Context(), r.Body, timestamp, scope, seedSignature, verifier, trailingHeader, hasTrailingHeaderWithSignature, skipChunkValidation, trailerChecksumName)
+}
+
+// DecodeUnauthenticatedAwsChunkedBody installs the aws-chunked decoder on a
+// request that carries no verifiable signature (anonymous request, or
+// authentication disabled). Without a secret the chunk signatures cannot be
+// checked, but the framing must still be removed and checksum trailers verified;
+// otherwise the chunk headers and trailers would be stored as object data.
+func DecodeUnauthenticatedAwsChunkedBody(r *http.Request) {
+	if hasAwsChunkedContentEncoding(r.Header.Get("Content-Encoding")) {
+		installAwsChunkedDecoder(r, "", "", "", newSigV4Verifier(nil), false)
+	}
 }
 
 type awsChunkReadCloser struct {
@@ -1039,6 +1060,7 @@ func MakeSignatureMiddleware(validCredentials []Credentials, region string, next
 			ctx := context.WithValue(r.Context(), IsAuthenticatedContextKey{}, false)
 			ctx = context.WithValue(ctx, AuthTypeContextKey{}, authTypeForRequest(r))
 			r = r.Clone(ctx)
+			DecodeUnauthenticatedAwsChunkedBody(r)
 			next.ServeHTTP(w, r)
 			return
 		}
